@@ -283,6 +283,10 @@ impl LanguageServer for Server {
 
 impl Server {
     fn set_file_content(&mut self, uri: &Url, text: &str) {
+        // a document that is not a file (e.g. `untitled:Untitled-1`) cannot be part of a workspace
+        if uri.to_file_path().is_err() {
+            return;
+        }
         let path = UrlExt::to_file_path(uri);
         #[cfg(feature = "verif")]
         crate::verif_hooks::point("main:enter");
